@@ -260,7 +260,7 @@ def index(kinds: str, maxlen: int = 6, maxstep: int = 3) -> JobOut:
                 key.append(Ellipsis)
         return x[tuple(key)]
 
-    smp = {f"n{d}": 4 for d in range(nd_arr)}
+    smp = {f"n{d}": min(4, maxlen) for d in range(nd_arr)}
     spec = {f"n{d}": [0, 1, 3] for d in range(nd_arr)}
     for d, k in enumerate(kinds):
         if k == "i":
@@ -510,6 +510,56 @@ def matmul(fn: str, na: int, nb: int, maxlen: int = 3) -> JobOut:
     return JobOut(obs=[ob], sides=sides)
 
 
+def pad_shapes(nd: int, maxlen: int = 3) -> JobOut:
+    params = _dims("n", nd) + [(f"w{d}{side}", "int") for d in range(nd) for side in "ba"]
+    names = [n for n, _ in params]
+
+    def pre(**p):
+        return all(0 <= p[f"n{d}"] <= maxlen for d in range(nd)) and all(-1 <= p[n] <= 2 for n in names if n.startswith("w"))
+
+    def build(lib, p):
+        x = lib.input("x", take(p, "n", nd), F64)
+        pw = tuple((p[f"w{d}b"], p[f"w{d}a"]) for d in range(nd))
+        return lib.pad(x, pw if nd > 1 else pw[0])
+
+    smp = {n: 1 for n in names}
+    return JobOut(obs=[_shape_ob(f"pad/nd{nd}", params, pre, build, [smp], timeout=400,
+                                 grid=_rnd_grid({n: ([0, 1, 2, 3] if n.startswith("n") else [-1, 0, 1, 2]) for n in names}, 300),
+                                 info={"family": "pad", "widths": "-1..2 per side (negative widths must be rejected)",
+                                       "lengths": f"0..{maxlen} symbolic"})])
+
+
+def adv_shapes(pattern: str, maxlen: int = 3) -> JobOut:
+    """result shape / broadcast validation of advanced indexing: pattern over 'A' (1-d index array of symbolic
+    length), 'B' (2-d index array (len, 1)), ':' and 'i'"""
+    nd = len(pattern)
+    params = _dims("n", nd) + [(f"l{d}", "int") for d, k in enumerate(pattern) if k in "AB"]
+    names = [n for n, _ in params]
+
+    def pre(**p):
+        return all(1 <= p[f"n{d}"] <= maxlen for d in range(nd)) and all(0 <= p[n] <= maxlen for n in names if n.startswith("l"))
+
+    def build(lib, p):
+        x = lib.input("x", take(p, "n", nd), F64)
+        key = []
+        for d, k in enumerate(pattern):
+            if k == "A":
+                key.append(lib.input(f"j{d}", (p[f"l{d}"],), np.int64))
+            elif k == "B":
+                key.append(lib.input(f"j{d}", (p[f"l{d}"], 1), np.int64))
+            elif k == "i":
+                key.append(0)
+            else:
+                key.append(slice(None))
+        return x[tuple(key)]
+
+    smp = {n: 2 for n in names}
+    return JobOut(obs=[_shape_ob(f"adv_shapes/{pattern}", params, pre, build, [smp], timeout=400,
+                                 grid=_rnd_grid({n: ([1, 2, 3] if n.startswith("n") else [0, 1, 2, 3]) for n in names}, 300),
+                                 info={"family": "advanced indexing shapes", "pattern": pattern,
+                                       "index array lengths": f"0..{maxlen} symbolic, independent (broadcastable or not)"})])
+
+
 def creation(which: str, big: bool = False) -> JobOut:
     R = 3 if big else 2
     if which == "eye":
@@ -649,7 +699,11 @@ def dtype_binary(op: str, kind: str) -> JobOut:
 
     def body(ob, **p):
         d1, d2 = p["d1"].__index__(), p["d2"].__index__()
-        c = cell(d1, d2)
+        # (the menu indices are concrete from here on: the table cell itself is computed outside CrossHair's
+        #  tracing, which only slows concrete code down)
+        from crosshair.tracers import NoTracing
+        with NoTracing():
+            c = cell(int(d1), int(d2))
         ob.reach()
         if c is None or c[1] == "declined":
             return True
@@ -703,7 +757,9 @@ def dtype_unary(op: str) -> JobOut:
     def body(ob, **p):
         d1 = p["d1"].__index__()
         ob.reach()
-        c = cell(d1)
+        from crosshair.tracers import NoTracing
+        with NoTracing():
+            c = cell(int(d1))
         if c is None:
             return True
         if any(r(d1) for r in active.values()):
@@ -735,8 +791,14 @@ def jobs(tier: str, seed: int):
             add("broadcast", op=op, na=2, nb=3, maxlen=4)
     for na, nb, nc in [(1, 1, 1), (2, 1, 0), (1, 2, 2)] + ([(2, 2, 2), (0, 0, 2), (3, 1, 2)] if th else []):
         add("broadcast", op="where", na=na, nb=nb, nc=nc, maxlen=4 if th else 3)
-    for pat in ["i", "s", "e", "is", "si", "ie", "se", "Ei", "Es"] + (["ss", "iss", "sis", "sE", "iEi", "sEs"] if th else []):
-        add("index", kinds=pat, maxlen=6 if len(pat) <= 2 else 4, maxstep=3 if pat.count("s") <= 1 else 2)
+    # (deep domains on the single-axis patterns; axes are handled independently by the code, paths multiply)
+    if th:
+        pats = [("i", 6, 3), ("s", 6, 3), ("e", 6, 3), ("is", 5, 2), ("si", 5, 2), ("ie", 6, 3), ("se", 6, 3), ("Ei", 6, 3),
+                ("Es", 6, 3), ("ss", 2, 1), ("sE", 4, 2), ("iEi", 4, 1)]
+    else:
+        pats = [("i", 6, 3), ("s", 6, 3), ("e", 6, 3), ("is", 3, 1), ("ie", 4, 2), ("se", 4, 2), ("Ei", 6, 3), ("Es", 5, 2)]
+    for pat, ml, ms in pats:
+        add("index", kinds=pat, maxlen=ml, maxstep=ms)
     for op in ["sum", "amax", "prod", "all"] + (["amin", "any"] if th else []):
         for nd, nax in [(1, 1), (2, 1), (3, 1), (2, 0), (2, 2), (0, 0)] + ([(3, 2), (1, 2), (3, 0)] if th else []):
             if op != "sum" and not th and (nd, nax) not in [(2, 1), (2, 2)]:
@@ -749,7 +811,7 @@ def jobs(tier: str, seed: int):
             add("join", op=op, nd=nd, narr=narr, maxlen=3 if nd * narr <= 4 else 2)
     for o, n in [(1, 1), (1, 2), (2, 1), (2, 2), (0, 1), (1, 0)] + ([(2, 3), (3, 2), (3, 1), (0, 2)] if th else []):
         for order in ("C", "F") if th else ("C",):
-            add("reshape", old_nd=o, new_nd=n, order=order, maxlen=3)
+            add("reshape", old_nd=o, new_nd=n, order=order, maxlen=3 if th or o + n <= 3 else 2)
     for which, nds in [("roll", (1, 2, 3)), ("expand_dims", (0, 1, 2)), ("expand_dims2", (0, 1, 2)), ("squeeze", (1, 2, 3)),
                        ("squeeze_none", (0, 2, 3)), ("transpose", (1, 2, 3)), ("broadcast_to", (0, 1, 2)),
                        ("broadcast_to_same", (1, 2, 3)), ("T", (0, 2, 3)), ("full", (0, 2)), ("zeros", (1, 3))]:
@@ -763,6 +825,10 @@ def jobs(tier: str, seed: int):
     for fn in ("matmul", "dot"):
         for na, nb in [(1, 1), (2, 2), (2, 1), (1, 2), (3, 2)] + ([(3, 3), (2, 3)] if th else []):
             add("matmul", fn=fn, na=na, nb=nb, maxlen=3 if na + nb <= 4 else 2)
+    for nd in (1, 2):
+        add("pad_shapes", nd=nd, maxlen=3 if nd == 1 else 2)
+    for pat in ["AA", "A:A", "AB", "BA:", "A:", "AiA"] + (["AAA", ":AA", "B:A"] if th else []):
+        add("adv_shapes", pattern=pat, maxlen=3)
     add("creation", which="eye")
     add("creation", which="arange", big=th)
     for op in BINOPS:
